@@ -158,6 +158,7 @@ func runCheck(repo, contracts string, args []string, tier string, timeout time.D
 	backendCount := map[string]int{}
 	var solverMs int64
 	var samples []map[string]interface{}
+	var slow []slowObl
 	var fnNames, inlined, unmodelled, trusted, warnings, knownLines, undecidedNew, vacuity []string
 	setAdd := func(dst *[]string, xs []string) {
 		for _, x := range xs {
@@ -215,6 +216,9 @@ func runCheck(repo, contracts string, args []string, tier string, timeout time.D
 					be = "simplifier"
 				}
 				backendCount[be]++
+				if or.Status == "discharged" {
+					slow = append(slow, slowObl{or.O.ID, or.Res.Backend, or.Res.Ms})
+				}
 				if len(samples) < 6 && or.Status == "discharged" {
 					samples = append(samples, map[string]interface{}{"obligation": or.O.ID, "kind": or.O.Kind, "what": or.O.Desc, "result": "unsat", "backend": or.Res.Backend, "ms": or.Res.Ms, "assumptions": or.O.NAssume})
 				}
@@ -292,6 +296,11 @@ func runCheck(repo, contracts string, args []string, tier string, timeout time.D
 	ev.Coverage["discharged_by_backend"] = backendCount
 	ev.Coverage["solver_ms"] = solverMs
 	ev.Coverage["samples"] = samples
+	sort.Slice(slow, func(i, j int) bool { return slow[i].Ms > slow[j].Ms })
+	if len(slow) > 5 {
+		slow = slow[:5]
+	}
+	ev.Coverage["slowest_obligations"] = slow
 	ev.Coverage["known_findings"] = knownLines
 	ev.Coverage["undecided_new"] = undecidedNew
 	ev.Coverage["subset_warnings"] = warnings
@@ -384,3 +393,9 @@ type specialResult struct {
 }
 
 var specialChecks = map[string]func(w *World, prop string, thorough bool) specialResult{}
+
+type slowObl struct {
+	Obligation string `json:"obligation"`
+	Backend    string `json:"backend"`
+	Ms         int64  `json:"ms"`
+}
